@@ -16,6 +16,10 @@ CLAUSE = CLAUSE + (" Every path through the packet-header branch of the assemble
                    "current-packet pointer - to the addressed sub-packet or to NULL - so the payload of an ignored (unsupported) "
                    "packet can never be appended to the packet it interrupted; in xds_strfu no term OR-ed into the 'content "
                    "changed' result is a compile-time constant (the old terminator byte is read before it is overwritten).")
+CLAUSE = CLAUSE + (" flush_prog_info clears the second-occurrence bookkeeping of the slot it flushed (info_cycle indexed by the "
+                   "program info's own slot number, as xds_decoder indexes it by _class); vbi_xds_demux_feed_frame feeds only "
+                   "lines whose service id is exactly CAPTION_525 or CAPTION_525_F2 (an exact-value dispatch, not a mask that also "
+                   "admits the field 1 id).")
 NOT_DECIDED = ("exactly-once delivery under interleaving, equality of the delivered bytes with the sent ones, content decoding "
                "into vbi_program_info (values).")
 
@@ -178,6 +182,8 @@ def run(ctx, run):
     _header_rebinds_current(ctx, run)
     _change_flag_not_vacuous(ctx, run)
     _parity_discipline(ctx, run)
+    _info_cycle_slot(ctx, run)
+    _field2_ids(ctx, run)
 
 
 def _canon(f, node):
@@ -527,3 +533,72 @@ def _parity_discipline(ctx, run):
             run.holds("RF-NEG", "RF-NEG:%s" % name, "%d parity decode site(s), each tested before its byte is stored" % a.n_sources,
                       "%s:%d" % (f.file, f.line))
     run.floor("parity decode sites in the XDS paths", n, 6)
+
+
+def _info_cycle_slot(ctx, run):
+    f = ctx.prog.need("flush_prog_info", "src/caption.c")
+    run.touch(f)
+    n = 0
+    for bid, i in flow.all_events(f):
+        e = f.exprs[i]
+        if e["k"] != "asg":
+            continue
+        l = f.exprs[ex.skip(f, e["c"][0])]
+        if l["k"] != "idx":
+            continue
+        b = f.exprs[ex.skip(f, l["c"][0])]
+        while b["k"] == "cast":
+            b = f.exprs[ex.skip(f, b["c"][0])]
+        if b.get("member") != "info_cycle":
+            continue
+        n += 1
+        ix = f.exprs[ex.skip(f, l["c"][1])]
+        while ix["k"] == "cast":
+            ix = f.exprs[ex.skip(f, ix["c"][0])]
+        ok = (ix["k"] == "mem" and ix["member"] == "future") or (ix["k"] == "bin" and ix["op"] == "-" and "prog_info" in ex.pretty(f, l["c"][1]))
+        key = "RF-TAB:flush_prog_info:info_cycle-slot"
+        if ok:
+            run.holds("RF-TAB", key, "info_cycle is indexed by the flushed program info's own slot (`%s`)" % ex.pretty(f, l["c"][1]), ex.loc(f, i))
+        else:
+            run.violation("RF-TAB", key, "info_cycle is indexed by `%s`, not by the slot of the program info being flushed "
+                          "(pi->future, which is what xds_decoder's _class index corresponds to): flushing one class clears the "
+                          "'seen once' bits of the other, whose repeated packets are then never announced"
+                          % ex.pretty(f, l["c"][1])[:60], ex.loc(f, i), witness={"index": ex.pretty(f, l["c"][1])})
+    run.floor("info_cycle stores in flush_prog_info", n, 1)
+
+
+def _field2_ids(ctx, run):
+    P = ctx.prog
+    f = P.need("vbi_xds_demux_feed_frame", "src/xds_demux.c")
+    run.touch(f)
+    want = {0x40, 0x60}          # VBI_SLICED_CAPTION_525_F2, VBI_SLICED_CAPTION_525
+    n = 0
+    for bid, i in flow.all_events(f):
+        e = f.exprs[i]
+        if not (e["k"] == "call" and e.get("callee") == "vbi_xds_demux_feed"):
+            continue
+        n += 1
+        vals = None
+        for sb, b in f.blocks.items():
+            t = b.term
+            if not t or t.get("kind") != "SwitchStmt" or "cond" not in t or not ex.pretty(f, t["cond"]).endswith("id") \
+                    or not flow.dominates(f, sb, bid):
+                continue
+            vs, ok = set(), True
+            for succ, lab in f.edges(sb):
+                if bid in flow.reach_from(f, succ, avoid=(sb,)):
+                    if isinstance(lab, tuple) and lab[2] - lab[1] < 8:
+                        vs.update(range(lab[1], lab[2] + 1))
+                    else:
+                        ok = False
+            if ok and vs:
+                vals = vs
+        key = "RF-DOM:vbi_xds_demux_feed_frame:exact-service-id"
+        if vals is not None and vals <= want:
+            run.holds("RF-DOM", key, "the XDS feed is reached only for service ids %s" % sorted(hex(v) for v in vals), ex.loc(f, i))
+        else:
+            run.violation("RF-DOM", key, "the XDS feed is not behind an exact dispatch on the line's service id (found %s; expected the "
+                          "ids 0x40 / 0x60 only): field 1 caption lines (id 0x20) of sources that do not report line numbers are fed "
+                          "into the XDS stream, whose packets are then cut short or fail their checksum"
+                          % (sorted(hex(v) for v in vals) if vals else "no value dispatch"), ex.loc(f, i))
+    run.floor("vbi_xds_demux_feed call sites in the frame function", n, 1)
